@@ -95,6 +95,12 @@ def run(chk):
             subsets = subsets[:4] + subsets[-4:]
         for fr in subsets:
             cases.append(hoist(e, fr))
+        # a function symbol may be declared free as well: alone (everything else is constant) and with one variable
+        fsyms = sorted({n[1][1] for n in _nodes(e) if n[0] == "call" and n[1][0] == "v"})
+        for fs in fsyms[:2]:
+            cases.append(hoist(e, (fs,)))
+            if vs:
+                cases.append(hoist(e, (fs, vs[len(cases) % len(vs)])))
     # the same calls without the history of this process: one fresh process per expression
     import multiprocessing
     import random as _random
